@@ -144,7 +144,11 @@ theorem C19_hash_literal_perm (pairs : List (Str × Str × Pair)) :
 /-- … and that order does not depend on the order in which the parser's map yields them: any two
     orders of the same pairs compile to the same sequence, provided only that two pairs with the same
     key text AND the same value text are the same pair (a key may be repeated - the compiler then
-    orders the duplicates by their values; this is the repair of KF-26) -/
+    orders the duplicates by their values; this is the repair of KF-26).  The hypothesis was where KF-36
+    lived: pairs that print alike without being the same code.  Since its repair the compiler no longer
+    starts from the map but from the written order (`C19_hash_literal_written_order` below, which needs
+    no hypothesis); this theorem is what remains true of the fall-back for a literal that was not built
+    by the parser. -/
 theorem C19_hash_literal_order_free (ps ps' : List (Str × Str × Pair)) (hperm : ps.Perm ps')
     (hd : ∀ a ∈ ps, ∀ b ∈ ps, a.1 = b.1 → a.2.1 = b.2.1 → a = b) :
     ps.mergeSort (fun a b => !(pairLt b a)) = ps'.mergeSort (fun a b => !(pairLt b a)) := by
@@ -177,6 +181,57 @@ theorem C19_hash_literal_order_free (ps ps' : List (Str × Str × Pair)) (hperm 
   · exact List.pairwise_mergeSort trans total ps
   · exact List.pairwise_mergeSort trans total ps'
   · exact (List.mergeSort_perm ps _).trans (hperm.trans (List.mergeSort_perm ps' _).symm)
+
+theorem pairLe_total {α : Type} (a b : Str × Str × α) : ((!(pairLt b a)) || (!(pairLt a b))) = true := by
+  cases h : pairLt b a
+  · simp
+  · cases h' : pairLt a b
+    · simp
+    · have := pairLt_trans _ _ _ h h'
+      rw [pairLt_irrefl] at this; cases this
+
+theorem pairLe_trans {α : Type} (a b c : Str × Str × α) (h1 : (!(pairLt b a)) = true) (h2 : (!(pairLt c b)) = true) :
+    (!(pairLt c a)) = true := by
+  simp only [Bool.not_eq_true'] at *
+  cases hca : pairLt c a
+  · rfl
+  · rcases pairLt_tri a b with hab | hba | ⟨e1, e2⟩
+    · rw [pairLt_trans _ _ _ hca hab] at h2; cases h2
+    · rw [hba] at h1; cases h1
+    · rw [pairLt_congr a b c e1 e2, h2] at hca; cases hca
+
+/-- Since the repair of KF-36 the compiler sorts the pairs *as written* (the parser records the order of
+    the keys) with a stable sort: the compile order is a function of the script, with no hypothesis on
+    the pairs.  What the stable sort adds: two pairs that the order does not separate - the same key text
+    and the same value text, which need NOT be the same code - are compiled in the order they were
+    written. -/
+theorem C19_hash_literal_written_order {α : Type} (ps : List (Str × Str × α)) (a b : Str × Str × α)
+    (hw : [a, b].Sublist ps) (hab : pairLt b a = false) :
+    [a, b].Sublist (ps.mergeSort (fun a b => !(pairLt b a))) := by
+  apply List.pair_sublist_mergeSort (le := fun a b => !(pairLt b a)) pairLe_trans pairLe_total _ hw
+  simp [hab]
+
+/-- … in particular pairs which print alike stay in their written order -/
+theorem C19_hash_literal_ties_keep_written_order {α : Type} (ps : List (Str × Str × α)) (a b : Str × Str × α)
+    (hw : [a, b].Sublist ps) (e1 : a.1 = b.1) (e2 : a.2.1 = b.2.1) :
+    [a, b].Sublist (ps.mergeSort (fun a b => !(pairLt b a))) := by
+  apply C19_hash_literal_written_order ps a b hw
+  rw [pairLt_congr a b b e1 e2, pairLt_irrefl]
+
+/-- the sorted order itself -/
+theorem C19_hash_literal_sorted {α : Type} (ps : List (Str × Str × α)) :
+    (ps.mergeSort (fun a b => !(pairLt b a))).Pairwise (fun a b => pairLt b a = false) := by
+  have := List.pairwise_mergeSort (le := fun a b => !(pairLt b a)) pairLe_trans pairLe_total ps
+  simpa using this
+
+/-- premises satisfiable, on the two pairs of KF-36 (the same texts, different code - here the payload):
+    whichever is written first is compiled first -/
+example : [((['k'], ['r'], 1) : Str × Str × Nat), (['k'], ['r'], 2)].Sublist
+    ([(['k'], ['r'], 1), (['a'], ['z'], 0), (['k'], ['r'], 2)].mergeSort (fun a b => !(pairLt b a))) :=
+  C19_hash_literal_ties_keep_written_order _ _ _ (by decide) rfl rfl
+example : [((['k'], ['r'], 2) : Str × Str × Nat), (['k'], ['r'], 1)].Sublist
+    ([(['k'], ['r'], 2), (['a'], ['z'], 0), (['k'], ['r'], 1)].mergeSort (fun a b => !(pairLt b a))) :=
+  C19_hash_literal_ties_keep_written_order _ _ _ (by decide) rfl rfl
 
 /-- the text of a hash literal (`HashLiteral.String()`, which the sort above reads when a hash literal
     is itself a key or a value) is the same for every order of its pairs -/
